@@ -528,4 +528,10 @@ def run(repo, tier) -> Result:
     res.rule("R-CLAUSES", floor=8)
     res.rule("R-UNITS", floor=12)
     res.rule("R-GEOM", floor=6)
+    # "the candle before" must be a real earlier candle and "the window" must end at the evaluated candle: positions of every read
+    from ..analysis_scope import analysis_universe
+    from ..rules_analysis import check_function
+
+    for name, fi in sorted(analysis_universe(repo).items()):
+        check_function("C17", res, repo, fi, want=("R-WRAP", "R-CAUSAL"))
     return res
